@@ -58,6 +58,7 @@ type Actor struct {
 	probe  func() bool
 	wakeAt time.Time
 	goid   uint64
+	inCode bool                 // parked at a site inside the code under test (see parkInCode)
 	held   map[string]*heldLock // lock-discipline bookkeeping (engines with "lock_discipline")
 }
 
@@ -257,6 +258,18 @@ func (r *Run) Tag(name string) {
 	r.mu.Unlock()
 }
 
+// Untag withdraws a history tag: for history classes that END (the state a recorded defect corrupted has been rewritten
+// by the code under test itself), so that the rest of the run is judged without the tag. Only the harness's knowledge of
+// the history may decide this, never the symptom.
+func (r *Run) Untag(name string) {
+	r.mu.Lock()
+	if r.tags[name] {
+		delete(r.tags, name)
+		r.Stats.Probes["untag:"+name]++
+	}
+	r.mu.Unlock()
+}
+
 // tagSuffix must be called with r.mu held.
 func (r *Run) tagSuffix() string {
 	if len(r.tags) == 0 {
@@ -376,6 +389,17 @@ func (r *Run) kickSched() {
 	}
 }
 
+// parkInCode is park for the sites the instrumenter puts INSIDE the code under test (before a lock, after an unlock, at a
+// write): when a run is aborted, an actor parked there is left parked for good instead of being unwound by a panic,
+// because unwinding would run the code's deferred calls in a state they were not written for (e.g. a deferred Unlock while
+// the actor sits between an explicit Unlock and the re-Lock: "fatal error: sync: Unlock of unlocked RWMutex" kills the
+// whole worker and the violation is lost). The bubble then ends with blocked goroutines, which execute() expects.
+func (r *Run) parkInCode(a *Actor, site string, probe func() bool) {
+	a.inCode = true
+	r.park(a, site, probe)
+	a.inCode = false
+}
+
 func (r *Run) park(a *Actor, site string, probe func() bool) {
 	if r.killed.Load() {
 		panic(abortSentinel{})
@@ -442,7 +466,7 @@ func BeforeLock(site string, probe func() bool) {
 		}
 		return
 	}
-	r.park(a, site, probe)
+	r.parkInCode(a, site, probe)
 }
 
 // Yield (package level) is inserted by the instrumenter at extra sites.
@@ -451,7 +475,11 @@ func Yield(site string) {
 	if r == nil {
 		return
 	}
-	r.Yield(site)
+	a := r.actorOfG()
+	if a == nil {
+		return
+	}
+	r.parkInCode(a, site, nil)
 }
 
 // ---------------------------------------------------------------- scheduler
@@ -589,8 +617,12 @@ func (r *Run) cleanup() {
 		actors := append([]*Actor(nil), r.actors...)
 		r.mu.Unlock()
 		n := 0
+		aborted := r.violation != nil || r.herr != nil
 		for _, a := range actors {
 			if !a.done.Load() && a.parked.Load() {
+				if aborted && a.inCode {
+					continue // left parked, see parkInCode
+				}
 				a.parked.Store(false)
 				a.wake <- struct{}{}
 				n++
@@ -843,7 +875,7 @@ func MidWrite(site string, recv any, typeHasOwnLocks bool) {
 			}
 		}
 	}
-	r.park(a, "write@"+site, nil)
+	r.parkInCode(a, "write@"+site, nil)
 }
 
 func Released(key string) {
